@@ -132,9 +132,16 @@ def generate(rng, tier):
             m1 = base + 8 * 50
             d[m1] = code[1]; d[m1 + 24] = m1
             d[m1 + 8] = code[2]; d[m1 + 32] = m1 - 8
+            # a chain of machine frames that leads DOWN the stack: the first frame may go anywhere, every
+            # caller frame must refuse (two such frames pointing at each other would never end)
+            mA, mB, mC = base + 8 * 58, base + 8 * 10, base + 8 * 4
+            d[mA] = code[1] + 1; d[mA + 24] = mB
+            d[mB] = code[1] + 2; d[mB + 24] = mC
+            d[mC] = code[1] + 3; d[mC + 24] = mB
             s.mem("W%d" % mi, sorted(d.items()))
             for pc, spv, fpv in [(code[0], r1 + 64, r1), (code[0], base, r1), (code[3], base + 8, r2), (code[1], m1, 0),
-                                 (code[2], m1 - 8, 0), (rng.choice(code), base + 8 * rng.below(nw), base + 8 * rng.below(nw))]:
+                                 (code[2], m1 - 8, 0), (code[1], mA, 0), (code[1] + 5, mB, 0),
+                                 (rng.choice(code), base + 8 * rng.below(nw), base + 8 * rng.below(nw))]:
                 regs = [rng.choice([0, base + 8 * rng.below(nw)]) for _ in range(16)]
                 regs[4] = spv; regs[fp] = fpv
                 s.add("newcache F")
